@@ -28,29 +28,43 @@ THEOREMS = [_T + n for n in [
 LEVEL_TEXT = ("Lean theorems over the model of compute_affinity (everything GEOS computes is a parameter): the IoU and "
               "time-IoU formulas (range, symmetry, self, zero, shift), rectangle closed forms, and for the dispatcher "
               "range under `Sane`, symmetry / self = 1 / time-disjoint = 0 under `Sound`, the box closed form under "
-              "`BoxExact`, time-only = time IoU, shift invariance under `ShiftInv`; the contracts are proved satisfiable. "
-              "Formulas and the time-only dispatch are re-derived from the source by symbolic tracing on every run and "
-              "proved equal to the model for all inputs; the type tables are re-extracted; all 81 type pairs run "
-              "differentially; range / symmetry / self / disjoint / shift are judged on every real output.")
-LEVEL_NOTE = ("Unmodelled: GEOS overlay, buffer and area in binary64 (parameters of the model; `Sane` checked exactly and "
-              "`Sound` up to 2^-40 on every measured value); binary64 rounding of the final ratio off the dyadic grid. "
-              "Known findings: argument-order dependence and self-affinity just below 1, both <= 2^-40, in the area branch. "
+              "`BoxExact`, time-only = time IoU (in closed form from the coordinates, polygons included, under `BoundsExact`), "
+              "shift invariance under `ShiftInv`; the contracts are proved satisfiable.  The same dispatcher operation by "
+              "operation in any rounding arithmetic (`affinityR rnd`, laws `IsRounding`): range, symmetry, self = 1 and "
+              "disjoint = 0 are proved there too, so they hold of the binary64 computation and not only of its rational "
+              "idealisation.  The whole of compute_affinity is re-derived from the source by symbolic tracing on every run - "
+              "all 81 ordered type pairs, for every rounding, every GEOS parameter, all coordinates and buffers - and proved "
+              "equal to the model; so are both formulas and the closed-form buffers; the type tables are re-extracted; all 81 "
+              "type pairs run differentially (bit for bit against the binary64 evaluation of the model off the grid); range / "
+              "symmetry / self / disjoint / shift are judged on every real output.")
+LEVEL_NOTE = ("Unmodelled: GEOS overlay, buffer and area in binary64 (parameters of the model; `Sane` and `BoundsExact` checked "
+              "exactly and `Sound` up to 2^-40 on every measured value).  That binary64 round-to-nearest obeys `IsRounding` "
+              "(monotone, exact on 0 and 1, idempotent, exact doubling) is assumed, not proved; the driver's executable "
+              "`rnd64` is compared with Python's correctly rounded float(Fraction) on every run.  "
+              "Known findings: argument-order dependence and self-affinity just below 1, both <= 2^-40, in the area branch "
+              "(they come from GEOS, i.e. from `Sound` failing in the last bits, not from the arithmetic of compute_affinity). "
               "Model tied to the code by regenerated obligations and generator-bounded correspondence.")
-TECHNIQUE = ("Lean 4 proof over model with GEOS as a parameter under explicit contracts; symbolic-trace equality and table "
-             "obligations regenerated from source; differential correspondence over all 81 type pairs; property monitor on real outputs")
-RULE = ("all 81 ordered type pairs x buffers on dyadic grids and with arbitrary binary64 coordinates, self pairs, touching / "
-        "nested / zero-extent placements, exhaustive small interval / box grids, shifted pairs; non-trivial = the "
-        "implementation returned a number and at least one of the two orders is positive or the pair is disjoint in time; "
-        "distinct = distinct (operation, input)")
-TRUSTED = ["shapely/GEOS area, intersection, buffer, bounds (measured per case; contracts Sane exactly, Sound up to 2^-40)",
-           "symbolic tracer stubs: geometry stand-ins with .type/.coordinates, shapely stand-ins with symbolic areas, "
-           "data.TimeInterval replaced by a record, compute_bounds by the coordinates"]
+TECHNIQUE = ("Lean 4 proof over model with GEOS as a parameter under explicit contracts, in exact and in rounding arithmetic; "
+             "symbolic-trace equality (whole function, all 81 type pairs, rounding-aware) and table obligations regenerated "
+             "from source; differential correspondence over all 81 type pairs, bit-exact against a binary64 evaluation of "
+             "the model; property monitor on real outputs")
+RULE = ("all 81 ordered type pairs x buffers on dyadic grids and with arbitrary binary64 coordinates, self pairs (aliased and "
+        "not), touching / nested / zero-extent / tiny-overlap / full-band placements, exhaustive small interval / box grids, "
+        "shifted pairs; non-trivial = the implementation returned a number and at least one of the two orders is positive or "
+        "the pair is disjoint in time; distinct = distinct (operation, input)")
+TRUSTED = ["shapely/GEOS area, intersection, buffer, bounds (measured per case; contracts Sane and BoundsExact exactly, Sound up to 2^-40)",
+           "symbolic tracer stubs: geometries with .type/.coordinates and the Lean term they stand for, shapely stand-ins whose "
+           "area / intersection area / bounds are atoms `G.area x`, `G.inter x y`, `G.st x`, `G.en x` of the model's parameter "
+           "(bounds of a TimeStamp / TimeInterval / BoundingBox: the coordinates, contract BoundsExact), data.TimeInterval "
+           "replaced by a record, buffer_shapely_geometry by a marker recording its arguments",
+           "binary64 arithmetic of CPython is IEEE-754 round-to-nearest-even (the driver's rnd64 is compared with it on every run)"]
 ASSUMPTIONS = ["geometries are valid and polygonal ones non-self-intersecting (generators retry until shapely says valid)",
                "buffers are non-negative, and strictly positive when a 0/1-dimensional geometry is involved",
                "binary64 arithmetic is exact on the dyadic grids used for the round-once comparisons",
+               "binary64 round-to-nearest-even obeys `IsRounding` on the magnitudes that occur (no overflow)",
                "GEOS satisfies `Sound` exactly only in exact arithmetic; in binary64 it does up to a relative 2^-40 (monitored)"]
-NOT_COMPARED = ["negative buffers (outside the property's quantifier)",
-                "GEOS pairs and free-mode coordinates are compared with tolerance 2^-40, not bit for bit",
+NOT_COMPARED = ["negative buffers (outside the property's quantifier; modelled and tied symbolically, not run differentially)",
+                "GEOS pairs on the grid are compared with tolerance 2^-40; off the grid bit for bit given the measured GEOS values",
                 "error messages"]
 
 TOL = Fraction(1, 2 ** 40)
